@@ -640,8 +640,11 @@ class UnitsContainer(Mapping[str, Scalar]):
             raise TypeError(err.format(type(other)))
 
         new = self.copy()
-        for key, value in new._d.items():
-            new._d[key] *= other
+        if other == 0:
+            new._d.clear()
+        else:
+            for key, value in new._d.items():
+                new._d[key] *= other
         new._hash = None
         return new
 
